@@ -326,6 +326,13 @@ func c15ExecRt(c *c15Case, tmp string) (obs c15Obs) {
 		for _, e := range ents {
 			orc.addFile(e.Name, e.Data)
 		}
+		if afs, err := loader.LoadArchiveFiles(bytes.NewReader(raw)); err == nil {
+			var lvl []c15File
+			for _, af := range afs {
+				lvl = append(lvl, c15File{Name: af.Name, Data: af.Data})
+			}
+			orc.addLevel(lvl, 0)
+		}
 		l, err := loader.Load(path)
 		obs.LoadErr = c15LoadErrClass(err)
 		if err == nil {
@@ -344,6 +351,7 @@ func c15ExecRt(c *c15Case, tmp string) (obs c15Obs) {
 		}
 		obs.IgnoreErr = orc.addIgnore(root, obs.Tree)
 		obs.Ignored = orc.ignoredFiles
+		orc.addLevel(c15Kept(obs.Tree, obs.Ignored), 0)
 		l, err := loader.Load(root)
 		obs.DirErr = c15LoadErrClass(err)
 		if err == nil {
@@ -358,7 +366,7 @@ func c15ExecRt(c *c15Case, tmp string) (obs c15Obs) {
 
 func c15ExecFiles(c *c15Case) (obs c15Obs) {
 	orc := newC15Oracle()
-	orc.allPairs = true
+	orc.addLevel(c.Files, 0)
 	var bfs []*loader.BufferedFile
 	for _, f := range c.Files {
 		orc.addFile(f.Name, f.Data)
@@ -394,6 +402,7 @@ func c15ExecDir(c *c15Case, tmp string) (obs c15Obs) {
 	}
 	obs.IgnoreErr = orc.addIgnore(root, obs.Tree)
 	obs.Ignored = orc.ignoredFiles
+	orc.addLevel(c15Kept(obs.Tree, obs.Ignored), 0)
 	l, err := loader.LoadDir(root)
 	obs.DirErr = c15LoadErrClass(err)
 	if err == nil {
@@ -434,6 +443,23 @@ func c15ExecDir(c *c15Case, tmp string) (obs c15Obs) {
 	orc.close()
 	obs.Oracle = orc
 	return obs
+}
+
+// c15Kept: the files of a directory tree the walk keeps, BOM-trimmed, in walk order (the
+// listing is sorted by full path; within one level only the relative order of equal names
+// matters for the merge chain, and names are unique in a directory).
+func c15Kept(tree []c15File, ignored []string) []c15File {
+	ig := map[string]bool{}
+	for _, n := range ignored {
+		ig[n] = true
+	}
+	var out []c15File
+	for _, f := range tree {
+		if !ig[f.Name] {
+			out = append(out, f)
+		}
+	}
+	return c15Trimmed(out)
 }
 
 // ---------------------------------------------------------------- runtime oracle
